@@ -10,6 +10,7 @@ def run(ctx, rep):
     bt.check_trans(ctx, rep, 'T-trans-normal', ['Normal'])
     bt.check_trans(ctx, rep, 'T-trans-coincident', ['SameTransition', 'DifferentTransition'])
     bt.check_prop(ctx, rep)
+    bt.check_atom_models(ctx, rep)
     bt.check_prev(ctx, rep)
     bt.check_result_part(ctx, rep)
     pirules.check_code(ctx, rep, rule='T-type')
